@@ -323,10 +323,29 @@ def execute(cases):
         for c, (a, pk, clip) in zip(cs, ri):
             c.impl, c.peak = a, pk
             c.model_line = rechunk_line(c.line, clip) if clip else None
+            if c.meta.get("model_line"):
+                c.model_line = c.meta["model_line"]     # a case run by another front end of the harness (serial pty) has its own model line
             mlines.append(c.model_line or c.line)
         rm = run_model(mlines, profile)
         for c, b in zip(cs, rm):
             c.model = b
+
+
+def ser_norm(s, abort=False):
+    """Bring an `SRV` trace (C:..,W:hex,..,WAIT|CLOSED|R:kind) into the form reported for the serial RTU server on a pty
+    (`calls|all reply bytes|end`): over a pty the order of invocations and the concatenation of the replies are observable,
+    the interleaving of the two is not.  The serial server has no error callback: its report is the value `serve_*` returns."""
+    s = s or ""
+    if "|" in s or s.startswith("ERR") or s in ("PANIC", "NORESULT") or s.startswith("CRASH"):
+        return s
+    toks = s.split(",")
+    calls = [t for t in toks if t.startswith("C:")]
+    w = "".join(t[2:] for t in toks if t.startswith("W:"))
+    last = toks[-1]
+    end = "E:" + last[2:] if last.startswith("R:") else ("FINISHED" if last == "CLOSED" else last)
+    if end == "WAIT" and abort:
+        end = "ABORTED"
+    return "%s|%s|%s" % (",".join(calls) or "-", w or "-", end)
 
 
 def load_known():
